@@ -521,6 +521,9 @@ def gen_cases(ctx):
     ]
     for m in mf:
         add("malformed", m["e"], m["box"], exact=True, cf=m["cf"])
+    # an unknown subinterval_style must be rejected (oracle only: today's code returns None, which is no model value)
+    add("malformed", ("mul", ("v", 0), ("v", 1)), [(1, 2), (3, 4)], exact=True, nomodel=True,
+        cf=[("subinterval", "endpoint", 2), ("subinterval", "Direct", 2)])
     for _ in range(ctx.scale(10, 100)):
         d = rng.choice([2, 3])
         box = int_box(rng, d)
@@ -938,6 +941,19 @@ def oracle_case(ctx, rng, ci, c, results, captured):
             if c["mono"] and okv(E) and not (abs(F(SE[1]) - F(E[1])) <= ptol and abs(F(SE[2]) - F(E[2])) <= ptol):
                 ctx.fail(feat(c, cfe, "monotone-subendpoints-differs", SE), cj(c, cfe, impl=list(SE), endpoints=list(E)),
                          f"monotone {show_expr(e)}: subinterval/endpoints {SE[1:]} differs from the vertex result {E[1:]}")
+    # refinement: when n1 divides n2 every tile of the finer tiling lies in a tile of the coarser one, so
+    # subinterval/direct shrinks and subinterval/endpoints grows (inclusion isotonicity / more lattice points)
+    for n1 in subs:
+        for n2 in subs:
+            if n1 < n2 and n2 % max(n1, 1) == 0:
+                a, b = R(("subinterval", "direct", n1)), R(("subinterval", "direct", n2))
+                if okv(a) and okv(b) and not (le(a[1], b[1], tol) and le(b[2], a[2], tol)):
+                    ctx.fail(feat(c, ("subinterval", "direct", n2), "refinement-not-nested", b), cj(c, ("subinterval", "direct", n2), coarse=list(a), fine=list(b)),
+                             f"subinterval/direct with n_sub={n2} gives {b[1:]}, not inside the coarser n_sub={n1} result {a[1:]}")
+                a, b = R(("subinterval", "endpoints", n1)), R(("subinterval", "endpoints", n2))
+                if okv(a) and okv(b) and not (le(b[1], a[1], tol) and le(a[2], b[2], tol)):
+                    ctx.fail(feat(c, ("subinterval", "endpoints", n2), "refinement-not-nested", b), cj(c, ("subinterval", "endpoints", n2), coarse=list(a), fine=list(b)),
+                             f"subinterval/endpoints with n_sub={n2} gives {b[1:]}, which does not contain the coarser n_sub={n1} result {a[1:]}")
 
 
 def oracle_malformed(ctx, ci, c, results):
@@ -947,7 +963,8 @@ def oracle_malformed(ctx, ci, c, results):
         if k != ci:
             continue
         s, st, n = cf
-        bad_call = s not in ("direct", "endpoints", "subinterval") or (s == "subinterval" and (st is None or n is None)) or d == 0 \
+        bad_call = s not in ("direct", "endpoints", "subinterval") or \
+            (s == "subinterval" and (st not in ("direct", "endpoints") or n is None)) or d == 0 \
             or max(vars_of(e), default=0) >= d
         if bad_call:
             if impl[0] != "err":
